@@ -660,11 +660,12 @@ def search(ctx):
             if rng.random() < 0.15:
                 ch.append(s)
         chains.append(ch[:9])
+    rng.shuffle(chains)
     pts = [[rng.choice([-1, 1]) * rng.uniform(0.3, 2.5) for _ in range(3)] for _ in range(2)]
     res = []
     step = 1500
     for s0 in range(0, len(chains), step):
-        res += impl(ctx, ["compose"], stdin=json.dumps({"chains": chains[s0:s0 + step], "k": 3, "points": pts, "convert_params": s0 == 0}), timeout=2400)
+        res += impl(ctx, ["compose"], stdin=json.dumps({"chains": chains[s0:s0 + step], "k": 3, "points": pts, "convert_params": (80 if ctx.quick else 600) if s0 == 0 else 0}), timeout=2400)
     nfail = 0
     for ch, r in zip(chains, res):
         shortened = len(r["after"]) != len(ch)
